@@ -61,6 +61,8 @@ def ties(ctx):
     out = []
     out.append(common.run_tie('encskel-rand', [hs, 'rand', str(s), '1200' if q else '12000']))
     out.append(common.run_tie('encskel-sweep', [hs, 'sweep', str(s), '0' if q else '1']))
+    if not q:
+        out.append(common.run_tie('encskel-bound', [hs, 'bound', str(s), '1']))
     out.append(common.run_tie('encskel-ms', [hs, 'ms', str(s), '120' if q else '1500']))
     out.append(common.run_tie('encskel-silkrate', [hs, 'silkrate']))
     out.append(common.run_tie('encskel-gentoc', [hs, 'gentoc']))
@@ -217,6 +219,7 @@ def _runs(ctx):
     hp = _h(ctx, 'plain')
     return [('encsize-search-rand', [hp, 'rand', str(s + 1000), '2500' if q else '30000']),
             ('encsize-search-sweep', [hp, 'sweep', str(s + 1000), '0' if q else '1']),
+            ('encsize-search-bound', [hp, 'bound', str(s + 1000), '0' if q else '1']),
             ('encsize-search-ms', [hp, 'ms', str(s + 1000), '300' if q else '4000']),
             ('encsize-search-cvbr', [hp, 'cvbr', str(s), '40' if q else '400', str(CAL['seconds'])])]
 
